@@ -63,7 +63,9 @@ class MIADistinguisherMixin(_PartitionnedDistinguisherBaseMixin):
                 else:
                     continue
                 for data_idx in range(data.shape[1]):
-                    self_accumulators[sample_idx, bin_idx, data[trace_idx, data_idx], data_idx] += 1
+                    data_value = data[trace_idx, data_idx]
+                    if data_value != -1:
+                        self_accumulators[sample_idx, bin_idx, data_value, data_idx] += 1
 
     def _accumulate(self, traces, data):
         if self.bin_edges is None:
